@@ -206,3 +206,120 @@ class AssocMap:
     def get(self, key, default=None):
         i = self._find(key)
         return default if i < 0 else self.items_[i][1]
+
+
+# --------------------------------------------------------------------------
+# numpy subset used by pdb2pqr.utilities / quatfit, on lists of proxies
+# --------------------------------------------------------------------------
+
+
+class Vec(list):
+    """1-D array stand-in with elementwise arithmetic (exact, list-based)."""
+
+    def _bin(self, o, f):
+        if isinstance(o, (list, tuple)):
+            if len(o) != len(self):
+                raise ValueError("operands could not be broadcast together")
+            return Vec(f(a, b) for a, b in zip(self, o))
+        return Vec(f(a, o) for a in self)
+
+    def __add__(self, o):
+        return self._bin(o, lambda a, b: a + b)
+
+    __radd__ = __add__
+
+    def __sub__(self, o):
+        return self._bin(o, lambda a, b: a - b)
+
+    def __rsub__(self, o):
+        return self._bin(o, lambda a, b: b - a)
+
+    def __mul__(self, o):
+        return self._bin(o, lambda a, b: a * b)
+
+    __rmul__ = __mul__
+
+    def __truediv__(self, o):
+        return self._bin(o, lambda a, b: a / b)
+
+    def __neg__(self):
+        return Vec(-a for a in self)
+
+    def __iadd__(self, o):
+        return self.__add__(o)
+
+    def __isub__(self, o):
+        return self.__sub__(o)
+
+    def tolist(self):
+        return list(self)
+
+
+class _LinAlg:
+    @staticmethod
+    def norm(v):
+        s = 0
+        for a in v:
+            s = s + a * a
+        return sym_sqrt(s) if is_sym(s) else _math.sqrt(s)
+
+
+class NumpyShim:
+    """Stand-in for ``np`` in a module namespace; anything not modelled falls
+    through to real numpy and fails loudly on proxies (-> inconclusive)."""
+
+    pi = _math.pi
+    linalg = _LinAlg()
+
+    def __getattr__(self, name):
+        import numpy
+
+        real = getattr(numpy, name)
+        if not callable(real):
+            return real
+
+        def f(*a, **k):
+            flat = []
+            for v in a:
+                flat.extend(v if isinstance(v, (list, tuple)) else [v])
+            if any(is_sym(v) for v in flat):
+                raise core.Inconclusive(f"numpy.{name} on symbolic values is not modelled")
+            return real(*a, **k)
+
+        return f
+
+    @staticmethod
+    def array(v, *a, **k):
+        if isinstance(v, Vec):
+            return Vec(v)
+        if isinstance(v, (list, tuple)) and v and isinstance(v[0], (list, tuple)):
+            return [Vec(r) for r in v]
+        return Vec(v)
+
+    @staticmethod
+    def cross(a, b):
+        return Vec([a[1] * b[2] - a[2] * b[1], a[2] * b[0] - a[0] * b[2], a[0] * b[1] - a[1] * b[0]])
+
+    @staticmethod
+    def inner(a, b):
+        s = 0
+        for x, y in zip(a, b):
+            s = s + x * y
+        return s
+
+    dot = inner
+
+    @staticmethod
+    def absolute(x):
+        return abs(x)
+
+    @staticmethod
+    def subtract(a, b):
+        return Vec(a) - b
+
+    @staticmethod
+    def add(a, b):
+        return Vec(a) + b
+
+
+NP = NumpyShim()
